@@ -77,6 +77,13 @@ def physical(dna):
     return (dna.index, dna.array.shape[0], tuple(map(tuple, dna.array[:max(dna.index + 1, 0)].tolist())))
 
 
+def _scalars(obj):
+    """every plain scalar attribute of a jesse object (whatever a method may read, also attributes a later version adds), except
+    identifiers and clock readings"""
+    return tuple(sorted((a, repr(v)) for a, v in vars(obj).items()
+                        if isinstance(v, (int, float, str, bool, type(None))) and a not in ('id', 'opened_at', 'closed_at', 'created_at', 'session_id')))
+
+
 def canon_common(exchange, positions, orders):
     """Fields every account operation reads; floats enter through repr (never rounded)."""
     k = [tuple(sorted((a, repr(v)) for a, v in exchange.assets.items())),
@@ -84,6 +91,8 @@ def canon_common(exchange, positions, orders):
     for s in sorted(positions):
         p = positions[s]
         k.append((s, repr(p.qty), repr(p.entry_price), repr(p.current_price), repr(p.previous_qty)))
+        k.append(_scalars(p))
+    k.append(_scalars(exchange))
     k.append(tuple((o.type, o.side, repr(o.qty), repr(o.price), bool(o.reduce_only), o.status) for o in orders))
     k.append(tuple(id(o) in {id(x) for x in store.orders.to_execute} for o in orders))
     for key in sorted(store.orders.storage):
